@@ -97,6 +97,18 @@ CHECKS = {
             'Trusted: harness/optics.py. Geometries whose axes imply different wavelengths and exact halves of round() are '
             'outside the domain; shape=None only where K is a multiple of the oversampling.',
             'exact DFT-at-reported-wavelength oracle in TLA+ (TLC), scratch histories replayed into lentil'),
+    'C10': ('model_checking',
+            'Purity.tla holds the API table of documented in-place targets and the trace specification: seeded random sessions '
+            'of ~60 public callables on a shared pool of caller-owned objects are recorded on lentil (content digests of every '
+            'object before/after each call, result digest, numpy global-generator digest, call key) and every event is judged by '
+            'TLC against Frame / Memo (history variable) / RngIsolation / Continuity, with total verdicts. PlaneHist.tla models '
+            'one plane under OPD updates, ramps, tilt fits and copies; TLC enumerates all short histories and samples long ones, '
+            'each is replayed on a real Pupil and every observation must equal the exact field of the effective state.',
+            'DESIGN.md 5 C10',
+            'Trusted: digest() canonical content digests; the call menu in drivers/c10.py; OPD arrays handed to constructors are '
+            'private copies. The binding self-test (corrupted digest, dropped event, changed result must be rejected) runs in '
+            'every check.',
+            'trace validation by TLC against a TLA+ purity specification + TLC-generated plane histories replayed into lentil'),
 }
 
 NOT_YET = 'check not built yet in this round (planned, see DESIGN.md section 5)'
